@@ -10,5 +10,11 @@ CHECKS = {
                  "compared with the table in the property statement; profile-to-class mapping of the factory; refusal shape "
                  "(MQTTStateError). The property is a table, so this decides it for all states, profiles and call sites at once.",
          "note": BASE_NOTE, "technique": "state-table extraction + call-graph/path effect classification (dispatch matrix)"},
+ "C19": {"text": "Ownership / non-interference argument over all call sites: every access of protocol code to the six per-address "
+                 "factory registries is subscripted by self.addr (aliases resolved along every path), self.addr is single-assignment from "
+                 "the constructor parameter that buildProtocol passes unchanged, per-address containers are fresh, no whole-registry or "
+                 "factory.protocol use, no mutation of class/module-level objects reachable from any entry point, the identifier counter "
+                 "is the only shared factory field. Decides the structural isolation, not trace equality.",
+         "note": BASE_NOTE + " RNG jitter is treated as an input.", "technique": "who-may-access / key-discipline check over resolved registry accesses (ownership analysis)"},
 }
 NOT_APPLICABLE = {}
